@@ -10,6 +10,7 @@
    theorems are about the explicit commit graph of Model/Select.v, which the harness compares
    with real git on generated histories. *)
 From Coq Require Import List NArith Bool Permutation.
+From Conductor Require Model.Loader Model.Planner Model.Exec Model.RunCase.
 From Conductor Require Import Lib.Str Model.Select Proofs.SelectSpec Proofs.SelectProofs Proofs.SelectDag.
 From Conductor Require Import Gen.Generated Proofs.GenTieSelect.
 Import ListNotations.
@@ -203,3 +204,26 @@ Proof.
   destruct (select_head_some _ _ _ _ _ S) as [B|[A _]]; [exact B|].
   exfalso. assert (H : commit ex_v = None) by (apply A; simpl; auto). discriminate H.
 Qed.
+
+(* Known finding F3.  The rule above is per task; WHICH tasks a run examines is the planner's traversal
+   (Model/Planner.v), and it stops at an experiment whose cached version is current.  In the composed
+   model: d (a command) -> e2 -> e, where e2's should_run is false (its version is at HEAD) and e's
+   is true (its only version is a strict ancestor of the --at-least commit): `cond run //:d` starts d
+   only; e is neither executed nor reported as cached -- it is never examined. *)
+Definition f3_tasks : list RunCase.tdef :=
+  [ {| RunCase.td_status := 2%nat; RunCase.td_deps := [1%nat]; RunCase.td_kind := Planner.KCommand; RunCase.td_par := false; RunCase.td_sr := true |};
+    {| RunCase.td_status := 2%nat; RunCase.td_deps := [2%nat]; RunCase.td_kind := Planner.KExperiment; RunCase.td_par := false; RunCase.td_sr := false |};
+    {| RunCase.td_status := 2%nat; RunCase.td_deps := []; RunCase.td_kind := Planner.KExperiment; RunCase.td_par := false; RunCase.td_sr := true |} ].
+Definition f3_cfg : RunCase.run_cfg :=
+  {| RunCase.c_root := 0%nat; RunCase.c_again := false; RunCase.c_jobs := 1%nat; RunCase.c_stop := false; RunCase.c_launch_fail := [];
+     RunCase.c_rcs := [0; 0; 0]; RunCase.c_picks := [] |}.
+Theorem C05_below_a_cached_experiment_refuted :
+  match RunCase.cond_run 50%nat f3_tasks f3_cfg with
+  | RunCase.ORun _ ps (Some evs) =>
+      map Planner.op_task (Planner.ops ps) = [0%nat] /\ Planner.cached ps = [1%nat] /\
+      RunCase.td_sr (RunCase.tdef_of f3_tasks 2%nat) = true /\
+      evs = [Exec.ECached 1%nat; Exec.EStart 0%nat None; Exec.EFinish 0%nat 0; Exec.EKill []; Exec.EDone]
+  | _ => False
+  end.
+Proof. vm_compute. repeat split; reflexivity. Qed.
+Print Assumptions C05_below_a_cached_experiment_refuted.
